@@ -171,9 +171,8 @@ func (c *shardedMap) ExpireAll(ctx context.Context) {
 	for i := range c.hashedBuckets {
 		b := &c.hashedBuckets[i]
 		b.Lock()
-		for h, v := range b.data {
-			v.E = startTS
-			b.data[h] = v
+		for _, v := range b.data {
+			atomic.StoreInt64(&v.E, startTS) // Entry may be in use by concurrent readers.
 			cnt++
 		}
 		b.Unlock()
@@ -242,7 +241,8 @@ func (c *shardedMap) Walk(walkFn func(e Entry) error) (int, error) {
 		for _, v := range c.hashedBuckets[i].data {
 			b.RUnlock()
 
-			err := walkFn(v)
+			// Handing out a consistent copy, entry may be updated by concurrent ExpireAll or reads.
+			err := walkFn(TraitEntry{K: v.K, V: v.V, E: atomic.LoadInt64(&v.E), C: atomic.LoadInt64(&v.C)})
 			if err != nil {
 				return n, err
 			}
